@@ -245,7 +245,7 @@ func (s *Solver) body(x *T, sb *strings.Builder) string {
 		return "(" + key + " " + strings.Join(as, " ") + ")"
 	case OFAdd, OFSub, OFMul, OFDiv:
 		op := map[Op]string{OFAdd: "fp.add", OFSub: "fp.sub", OFMul: "fp.mul", OFDiv: "fp.div"}[x.Op]
-		return fmt.Sprintf("(fp.to_ieee_bv_total (%s RNE %s %s))", op, s.asFP(x.A, sb), s.asFP(x.B, sb))
+		return fmt.Sprintf("(fp.to_ieee_bv (%s RNE %s %s))", op, s.asFP(x.A, sb), s.asFP(x.B, sb))
 	case OFLt:
 		return fmt.Sprintf("(fp.lt %s %s)", s.asFP(x.A, sb), s.asFP(x.B, sb))
 	case OFLe:
@@ -254,6 +254,16 @@ func (s *Solver) body(x *T, sb *strings.Builder) string {
 		return fmt.Sprintf("(fp.eq %s %s)", s.asFP(x.A, sb), s.asFP(x.B, sb))
 	case OFIsNaN:
 		return fmt.Sprintf("(fp.isNaN %s)", s.asFP(x.A, sb))
+	case OFCvt:
+		return fmt.Sprintf("(fp.to_ieee_bv ((_ to_fp %s) RNE %s))", fpSort(x.W), s.asFP(x.A, sb))
+	case OF2S:
+		return fmt.Sprintf("((_ fp.to_sbv %d) RTZ %s)", x.W, s.asFP(x.A, sb))
+	case OF2U:
+		return fmt.Sprintf("((_ fp.to_ubv %d) RTZ %s)", x.W, s.asFP(x.A, sb))
+	case OS2F:
+		return fmt.Sprintf("(fp.to_ieee_bv ((_ to_fp %s) RNE %s))", fpSort(x.W), r(x.A))
+	case OU2F:
+		return fmt.Sprintf("(fp.to_ieee_bv ((_ to_fp_unsigned %s) RNE %s))", fpSort(x.W), r(x.A))
 	}
 	n := opNames[x.Op]
 	if n == "" {
